@@ -290,20 +290,21 @@ ADDED = {
         'dynamic regexes first.',
  'C11': 'Added later: getline < "-" with file operands, numbers assigned to ARGV, family long (2100 records).',
  'C12': 'Added later: sessions of several Execute calls with different configurations on one Interpreter (IOStreams!NextRun); '
-        'path spellings, /dev/null, directory / missing / non-file operands, blank command lines.',
+        'path spellings, /dev/null, directory / missing / non-file operands, blank command lines; names in missing directories and the '
+        'file-system entries a run creates.',
  'C13': 'Added later: a command that does not read its input (exit3), a system() child that reads a file (showf1), output mode x writer kind x a '
-        'failure at every offset; newline output modes x payload shapes.',
+        'failure at every offset; newline output modes x payload shapes; block payloads around the 64 KiB buffer; implied print of pattern-only rules.',
  'C14': 'Added later: 38 run kinds x 8 configurations (standard input through every path, exit N then a failing END, commands, range patterns '
-        'ended in every way, rand/srand with symbolic draws, per-run Args/Environ/flags, ARGV/ENVIRON/FIELDS enumerated), contexts that end after the call returned.',
+        'ended in every way, rand/srand with symbolic draws, per-run Args/Environ/flags, ARGV/ENVIRON/FIELDS enumerated, formatted output under per-run settings, call depth near the limit), contexts that end after the call returned.',
  'C15': 'Added later: four print destinations with pending output at the cancellation point; children ending by status / signal / failing wait '
         'under a never-cancelled context.',
  'C16': 'Added later: family frames (fewer arguments than parameters with omitted scalars and arrays mixed, run and compared); argument forms '
         '(bare / parenthesised variable, expression, element, constant).',
  'C17': 'Added later: string and []byte parameters under CONVFMT / nan / inf; AWK functions shadowing entries of Config.Funcs; function shapes, '
-        'results at the extremes of every numeric kind, NativeSession (Execute histories after a set-up error).',
+        'results at the extremes of every numeric kind, NativeSession (Execute histories after a set-up error), NativeProgram (errors in every call position, []byte results as values).',
  'C18': 'Added later: jump statements as last statement of a block; the profile file over several runs (append on/off, stale longer file).',
  'C19': 'Added later: several collected parse errors; regex objects in the program digest; repeated executions through every execution interface; '
-        'race build in the quick tier; ParseHistory (the verdict of a source does not depend on what was parsed before); shell commands of concurrent interpreters.',
+        'race build in the quick tier; ParseHistory (the verdict of a source does not depend on what was parsed before); shell commands, range rules and number formats of concurrent interpreters.',
  'C20': 'Added later: sign-adjacency family (all trees <= 3/4 operators over unary + - !, ++ --, + - ^, $).',
 }
 
